@@ -549,6 +549,7 @@ impl<'a, T: Send> Future for SendFuture<'a, T> {
         Ok(()) => {
           if let Some(id) = this.my_id.take() {
             shared.unregister_async_send(id);
+            shared.chain_async_send_wake();
           }
           return Poll::Ready(Ok(()));
         }
@@ -599,6 +600,7 @@ impl<'a, T: Send> Future for BoundedSendBatchFuture<'a, T> {
         if let Some(id) = this.my_id.take() {
           shared.unregister_async_send(id);
         }
+        shared.chain_async_send_wake();
         return Poll::Ready(Ok(this.total));
       }
 
@@ -663,6 +665,7 @@ impl<'a, T: Send> Future for BoundedSendBatchMutFuture<'a, T> {
         if let Some(id) = this.my_id.take() {
           shared.unregister_async_send(id);
         }
+        shared.chain_async_send_wake();
         return Poll::Ready(Ok(this.sent));
       }
 
